@@ -61,6 +61,12 @@ def spec_check(ops, outs):
             d.pop(f[1], None); want = "-"
         elif f[0] == "C":
             d.clear(); want = "-"
+        elif f[0] == "J":
+            d.clear(); want = "-"
+            if f[1] != "-":
+                for kv in f[1].split(","):
+                    k_, v_ = kv.split("=")
+                    d[k_] = int(v_)
         elif f[0] == "R":
             want = "range[" + ",".join(sorted(f"{k.encode().hex()}={v}" for k, v in d.items())) + "]"
         elif f[0] == "N":
@@ -86,6 +92,14 @@ def main(tier):
             seqs.append(concretise([r.choice(alpha3) for _ in range(r.randint(6, 30))], nil_every=r.choice([0, 0, 0, 1, 2, 3])))
         for seq in itertools.product(alphabet(KEYS2), repeat=3):
             seqs.append(concretise(list(seq) + ["N", "R", "L:a", "L:b"], nil_every=1))
+        # a map in use is restored from a JSON document (UnmarshalJSON = forget everything, then store the document's entries): whatever
+        # its read / dirty layout was, afterwards it is the document — and it stays that through later stores, promotions and deletes
+        docs = ["-", "a=70", "b=71,c=72", "a=73,b=74,c=75", "d=76"]
+        for _ in range(4000 if tier == "thorough" else 800):
+            pre = [r.choice(alpha3) for _ in range(r.randint(0, 8))]
+            post = [r.choice(alpha3 + ["S:d", "L:d", "R", "N"]) for _ in range(r.randint(2, 10))]
+            mid = ["J:" + r.choice(docs)] + ([r.choice(alpha3)] + ["J:" + r.choice(docs)] if r.random() < 0.3 else [])
+            seqs.append(concretise(pre + mid + post + ["R", "N"], nil_every=r.choice([0, 0, 3])))
         # directed: histories that expunge, unexpunge and promote
         seqs.append(concretise("S:a R D:a S:b S:a R N L:a".split()))
         seqs.append(concretise("S:a S:b R D:a N".split()))
